@@ -21,10 +21,11 @@ import (
 
 func TestMain(m *testing.M) {
 	evid.Main(m, "C01", "translation_validation",
-		"(graph, query, parameters) triples: graphs of 0-6 nodes / 0-8 edges over kinds {A,B,C}/{R,S,T} with ids with gaps, kind-less and multi-kind nodes, self loops, cycles, parallel and antiparallel edges, missing properties; typed read queries from gen/cy (node/relationship/variable-length patterns in all directions, multi-pattern and multi-MATCH, OPTIONAL MATCH, WITH pipelines, WHERE boolean/comparison/string/null/kind/IN/pattern predicates, quantifiers, UNWIND, aggregation, DISTINCT, ORDER BY/SKIP/LIMIT, path and entity functions, parameters). The query text is parsed and translated by DAWGS; the emitted SQL text with the emitted parameters is executed by pgsim on the DAWGS schema; the same parsed model is evaluated by refcypher under four tie-break orders; the SQL rows must be a result openCypher allows (sequence / bag / bag modulo list order, as far as the reference is determined). Non-trivial = translated, executed without error, reference determined, and (reference result non-empty or the query has a relationship step and the graph has an edge); distinct by (query text, graph).",
+		"(graph, query, parameters) triples: graphs of 0-6 nodes / 0-8 edges over kinds {A,B,C}/{R,S,T} with ids with gaps, kind-less and multi-kind nodes, self loops, cycles, parallel and antiparallel edges, missing properties; typed read queries from gen/cy (node/relationship/variable-length patterns in all directions, multi-pattern and multi-MATCH, OPTIONAL MATCH, WITH pipelines, WHERE boolean/comparison/string/null/kind/IN/pattern predicates, quantifiers, UNWIND, aggregation, DISTINCT, ORDER BY/SKIP/LIMIT, path and entity functions, parameters). The query text is parsed and translated by DAWGS; the emitted SQL text with the emitted parameters is executed by pgsim on the DAWGS schema; the same parsed model is evaluated by refcypher under four tie-break orders while it observes ORDER BY ties and SKIP/LIMIT windows over unordered rows; the SQL rows must be a result openCypher allows: the same sequence (total ORDER BY), the same bag, the same bag modulo the order inside collected lists, or - when SKIP/LIMIT cuts through rows whose order is open - the same number of rows. Shapes of listed, still open defects (named predicates in qcase/findings.go) are counted as excluded, not evaluated. Non-trivial = translated, executed without error, reference determined at least up to the row count, and (reference result non-empty or the query has a relationship step and the graph has an edge); distinct by (query text, graph).",
 		"pgsim is a model of PostgreSQL for the emitted subset, refcypher a model of openCypher 9; both are calibrated against the repository's 370 result-asserting integration cases (their package tests) and a disagreement is only reported when both engines decided the case",
-		"translation errors, SQL run-time errors and reference run-time errors are 'rejected' outcomes, which the property allows; pgsim/refcypher 'unsupported' outcomes carry no verdict and are counted",
-		"strings are drawn from [a-z0-9]* (collation-independent ordering); graphs have < 15 edges so DAWGS's expansion depth cap is unobservable")
+		"translation errors, SQL errors (static errors are C03's subject) and reference run-time errors are 'rejected' outcomes, which the property allows; pgsim/refcypher 'unsupported' outcomes carry no verdict and are counted",
+		"strings are drawn from [a-z0-9]* (collation-independent ordering); graphs have < 15 edges so DAWGS's expansion depth cap is unobservable",
+		"documented DAWGS dialect stays outside the generated fragment: type-mismatched comparisons, property + property read as concatenation (translate/expression.go isConcatenationOperation), a leading OPTIONAL MATCH read as MATCH (translate/match.go:42); NOT on a string predicate over a missing property is modelled as DAWGS documents it (refcypher NegatedStringPredicateCoalesceLookups)")
 }
 
 func genCase(t *rapid.T) qcase.Case {
@@ -152,5 +153,5 @@ func featureClasses(c qcase.Case) []string {
 }
 
 func TestC01Generated(t *testing.T) {
-	evid.Prop(t, checkName, evid.R.N(1500, 20000), genCase, oracle)
+	evid.Prop(t, checkName, evid.R.N(6000, 20000), genCase, oracle)
 }
